@@ -3,7 +3,9 @@ package main
 // Direct oracles on the real code (independent of the Coq model).
 
 import (
+	"bytes"
 	"fmt"
+	"sort"
 	"strings"
 
 	"github.com/hashicorp/hcl/v2"
@@ -202,6 +204,102 @@ func absKeys(t hcl.Traversal) hcl.Traversal {
 	return out
 }
 
+// negKeyTokens: TokensForTraversal(t) is, token for token, TokensForTraversal(absKeys(t)) except that the
+// number literal of each negative index key starts with '-': the text of the finding (a[-1]), nothing else.
+func negKeyTokens(t hcl.Traversal) bool {
+	a, b := hclwrite.TokensForTraversal(t), hclwrite.TokensForTraversal(absKeys(t))
+	if len(a) != len(b) {
+		return false
+	}
+	neg := 0
+	for i := range a {
+		switch {
+		case a[i].Type != b[i].Type:
+			return false
+		case bytes.Equal(a[i].Bytes, b[i].Bytes):
+		case a[i].Type == hclsyntax.TokenNumberLit && len(a[i].Bytes) > 1 && a[i].Bytes[0] == '-' && bytes.Equal(a[i].Bytes[1:], b[i].Bytes) &&
+			i > 0 && a[i-1].Type == hclsyntax.TokenOBrack:
+			neg++
+		default:
+			return false
+		}
+	}
+	want := 0
+	for _, st := range t {
+		if ix, ok := st.(hcl.TraverseIndex); ok && ix.Key.Type() == cty.Number && !ix.Key.IsNull() && ix.Key.AsBigFloat().Sign() < 0 {
+			want++
+		}
+	}
+	return neg == want && want > 0
+}
+
+// isNegativeKeyFinding: the traversal has a negative number key, its generated text differs from that of
+// the traversal with the keys negated only by the '-' signs, and THAT traversal reads back exactly.
+func isNegativeKeyFinding(t hcl.Traversal) bool {
+	if !hasNegativeKey(t) || !negKeyTokens(t) {
+		return false
+	}
+	v2, _ := traversalReadBack(absKeys(t))
+	return v2.kind == ""
+}
+
+// readAsNegatedIndexExprs: the symptom on the expression side: the parser turned every "[-N]" into an
+// index EXPRESSION whose key is the unary negation of the literal N (so the attribute is no static
+// traversal any more), one per negative key of t, with exactly those magnitudes.
+func readAsNegatedIndexExprs(e hclsyntax.Expression, t hcl.Traversal) bool {
+	var want []string
+	for _, st := range t {
+		if ix, ok := st.(hcl.TraverseIndex); ok && ix.Key.Type() == cty.Number && !ix.Key.IsNull() && ix.Key.AsBigFloat().Sign() < 0 {
+			want = append(want, ix.Key.Negate().AsBigFloat().Text('f', -1))
+		}
+	}
+	var got []string
+	okAll := true
+	hclsyntax.VisitAll(e, func(n hclsyntax.Node) hcl.Diagnostics {
+		ix, isIx := n.(*hclsyntax.IndexExpr)
+		if !isIx {
+			return nil
+		}
+		u, isU := ix.Key.(*hclsyntax.UnaryOpExpr)
+		if !isU || u.Op != hclsyntax.OpNegate {
+			okAll = false
+			return nil
+		}
+		lit, isLit := u.Val.(*hclsyntax.LiteralValueExpr)
+		if !isLit || lit.Val.Type() != cty.Number || !lit.Val.IsKnown() || lit.Val.IsNull() {
+			okAll = false
+			return nil
+		}
+		got = append(got, lit.Val.AsBigFloat().Text('f', -1))
+		return nil
+	})
+	if !okAll || len(got) != len(want) {
+		return false
+	}
+	sort.Strings(got)
+	sort.Strings(want)
+	for i := range got {
+		if got[i] != want[i] {
+			return false
+		}
+	}
+	return true
+}
+
+func onlyDiag(ds hcl.Diagnostics, summary string) bool {
+	n := 0
+	for _, d := range ds {
+		if d.Severity != hcl.DiagError {
+			continue
+		}
+		if d.Summary != summary {
+			return false
+		}
+		n++
+	}
+	return n > 0
+}
+
 func traversalReadBack(t hcl.Traversal) (verdict, []byte) {
 	src := hclwrite.TokensForTraversal(t).Bytes()
 	full := src
@@ -212,6 +310,10 @@ func traversalReadBack(t hcl.Traversal) (verdict, []byte) {
 	}
 	got, diags := hclsyntax.ParseTraversalAbs(full, "gen.hcl", hcl.InitialPos)
 	if diags.HasErrors() {
+		// the symptom of the negative-key finding: ParseTraversalAbs rejects the '-' with exactly this error
+		if onlyDiag(diags, "Index value required") && isNegativeKeyFinding(t) {
+			return verdict{"traversal-negative-number-key", "parse: " + diags.Error()}, src
+		}
 		return verdict{"traversal-readback-differs", "parse: " + diags.Error()}, src
 	}
 	if same, why := stepsEqual(want, got); !same {
@@ -226,12 +328,9 @@ func traversalOracle(t hcl.Traversal) (vd verdict, src []byte) {
 			vd = verdict{"panic", fmt.Sprint(r)}
 		}
 	}()
+	// (the known kind is decided inside traversalReadBack, on the parse error itself: a traversal with a
+	// negative key that parses but reads back DIFFERENTLY is not the finding)
 	vd, src = traversalReadBack(t)
-	if vd.kind == "traversal-readback-differs" && hasNegativeKey(t) {
-		if v2, _ := traversalReadBack(absKeys(t)); v2.kind == "" {
-			vd.kind = "traversal-negative-number-key"
-		}
-	}
 	return vd, src
 }
 
@@ -426,10 +525,9 @@ func fileOracle(fs *fileSpec) (vds []verdict, src []byte) {
 		got, d := hcl.AbsTraversalForExpr(a.Expr)
 		if d.HasErrors() {
 			kind := "traversal-readback-differs"
-			if hasNegativeKey(t) {
-				if v2, _ := traversalReadBack(absKeys(t)); v2.kind == "" {
-					kind = "traversal-negative-number-key"
-				}
+			if ae, isSyn := a.Expr.(hclsyntax.Expression); isSyn && onlyDiag(d, "Invalid expression") &&
+				isNegativeKeyFinding(t) && readAsNegatedIndexExprs(ae, t) {
+				kind = "traversal-negative-number-key"
 			}
 			vds = append(vds, verdict{kind, "attribute " + n + ": " + d.Error()})
 			continue
